@@ -443,6 +443,7 @@ var Findings = []Finding{
 	{"with-where-moves-into-optional-match", WithWhereBeforeOptionalMatch},
 	{"labels-predicate-floats-to-final-select", LabelsPredicateBeforeBoundary},
 	{"quantifier-predicate-floats-to-final-select", QuantifierPredicateBeforeBoundary},
+	{"pattern-predicate-floats-into-later-clause", PatternPredicateBeforeBoundary},
 	{"xor-operands-lose-grouping", XorWithCompoundOperand},
 	{"path-function-on-null-path", PathFunctionOnOptionalPath},
 	{"labels-of-null-node", LabelsOfOptionalNode},
@@ -1098,6 +1099,15 @@ func QuantifierPredicateBeforeBoundary(q *Shape) bool {
 	})
 }
 
+// PatternPredicateBeforeBoundary: the same for a pattern predicate in a WHERE: it is rendered by the frame of the
+// NEXT clause (or the final select), not by the frame of the clause it belongs to. With a following OPTIONAL MATCH
+// the filter becomes part of the optional side: MATCH (n) WHERE (n)-->() OPTIONAL MATCH (n) keeps every n. (On the
+// tree without C03-pattern-predicate-rendered-again-by-later-match.diff the SQL of this shape is statically invalid,
+// i.e. rejected, which C01 allows.)
+func PatternPredicateBeforeBoundary(q *Shape) bool {
+	return q.predicateBeforeBoundary(hasPatternPredicate)
+}
+
 // XorWithCompoundOperand: an XOR one of whose operands is a conjunction / disjunction / negation / comparison.
 // XOR is emitted as "!=" without parenthesising the operands (translate/translator.go, case
 // *cypher.ExclusiveDisjunction); "!=" binds tighter than AND / OR / NOT in PostgreSQL, so "a AND b XOR c AND d" is
@@ -1307,6 +1317,71 @@ func FixedContinuationStepIntoBoundNode(q *Shape) bool {
 				}
 			}
 		}
+	})
+	return found
+}
+
+func init() {
+	Findings = append(Findings, Finding{"minmax-result-used-as-text", MinMaxAliasUsedInExpression})
+}
+
+// MinMaxAliasUsedInExpression: WITH min(x.key) AS a (or max) whose alias is later an operand of a comparison, a string
+// predicate or a function. cypher_min / cypher_max return jsonb; a later string operation casts the jsonb value to
+// text, which is its JSON text with the quotes ("a"), so `$p starts with a` and `a = 'x'` compare against the quoted
+// form (translate/function.go cypherMinMaxFunction).
+func MinMaxAliasUsedInExpression(q *Shape) bool {
+	aliases := map[string]bool{}
+	for _, p := range q.Parts {
+		if p.IsReturn || p.Projection == nil {
+			continue
+		}
+		for _, it := range p.Projection.Items {
+			expr, alias := ItemExpr(it)
+			if f, ok := expr.(*cypher.FunctionInvocation); ok && f != nil && alias != "" {
+				if name := strings.ToLower(f.Name); name == "min" || name == "max" {
+					aliases[alias] = true
+				}
+			}
+		}
+	}
+	if len(aliases) == 0 {
+		return false
+	}
+	isAlias := func(e cypher.Expression) bool {
+		v, ok := e.(*cypher.Variable)
+		return ok && v != nil && aliases[v.Symbol]
+	}
+	found := false
+	Visit(q.Model, func(n any) bool {
+		switch t := n.(type) {
+		case *cypher.Comparison:
+			if isAlias(t.Left) {
+				found = true
+			}
+			for _, partial := range t.Partials {
+				if partial != nil && isAlias(partial.Right) {
+					found = true
+				}
+			}
+		case *cypher.FunctionInvocation:
+			if name := strings.ToLower(t.Name); name != "min" && name != "max" {
+				for _, arg := range t.Arguments {
+					if isAlias(arg) {
+						found = true
+					}
+				}
+			}
+		case *cypher.ArithmeticExpression:
+			if isAlias(t.Left) {
+				found = true
+			}
+			for _, partial := range t.Partials {
+				if partial != nil && isAlias(partial.Right) {
+					found = true
+				}
+			}
+		}
+		return !found
 	})
 	return found
 }
